@@ -1,4 +1,5 @@
 import Pm.ClientStream
+import Pm.RunXCli
 /-! # C06 — no bytes from any client take the daemon down; every complete line is answered exactly once
 
 Property theorems only; the helper lemmas live in `Pm/ClientProof.lean` and `Pm/ClientStream.lean`.  The model they
@@ -10,7 +11,8 @@ Ranking: no fatal outcome of `hostlist_create` (F1 repaired: done) ▸ the only 
 `hostlist_sort` assertion (done; known finding F19 — the hypothesis `NoSortAbort` below) ▸ `_handle_input` handles exactly
 the complete lines, in order, independent of packetisation (done) ▸ one answer per line (done, see also `Props/C04.lean`)
 ▸ a line of `CP_LINEMAX` bytes or more is refused with 203, whatever it says (done: `C06_too_long`) ▸ whole passes, any
-number of clients (done under `NoSortAbort`).
+number of clients (done under `NoSortAbort`; `C06_run_survives_runX_partial`: also with arbitrary answers of the regex engine in
+every pass).
 
 What reaches `_handle_input` is what `_handle_read` put into the client's input buffer: at most `size - used` bytes per
 pass (a chunk of 1000 when the buffer is full; it grows up to `MAX_CLIENT_BUF` = 1 MiB), see `Props/C09.lean`,
@@ -176,10 +178,27 @@ theorem C06_pass_exit_is_client_exit (w : W) (p : PassIn) :
 /-- any number of passes with any kernel answers -/
 theorem C06_run_survives_partial (hs : NoSortAbort) (w : W) (ps : List PassIn) :
     (runPasses w ps).exited = w.exited :=
-  runPasses_exited hs w ps
+  runPasses_exited_plain hs w ps      -- corollary of `C06_run_survives_runX_partial` (passes that bring no regex answer)
 
 example : (runPasses Ex.world [{ now := 0, acc := 1, con := 0, soe := 0, envs := [] },
     { now := 1, acc := 0, con := 0, soe := 0, envs := [{ fd := 1000, rev := 1, rk := 0, data := bstr "telemetry\n", cap := 4096 }] }]).clients.map (·.toBuf) =
+    [render [.line 1 (bstr "2.4.4"), .prompt, .line 104 (bstr "Telemetry ON"), .prompt]] := by
+  decide +kernel
+
+/-- **any number of passes with any kernel answers and any answers of the regex engine in every pass.**  `C06_run_survives_partial`
+    is stated over `runPasses`, the plain fold of `daemonPass`, in which only the first pass can see a regex answer (`daemonPass`
+    consumes and clears `pendingX`; the driver refills it between passes).  This is the same statement over `runX`
+    (`Pm/RunX.lean`, shared with C02, C03, C05, C11, C15): every pass `q` brings its own regex answers `q.rx`, handed over by
+    `feed` before the pass; the regex answers are arbitrary in every pass.  (`_partial` for the same reason as above: the
+    hypothesis `NoSortAbort` excludes F19.) -/
+theorem C06_run_survives_runX_partial (hs : NoSortAbort) (w : W) (qs : List PassX) :
+    (runX w qs).exited = w.exited :=
+  runX_exited hs w qs
+
+/- the run of the example above as a run of `runX` (no device in `Ex.world`, so no regex answer is ever asked for; runs in which
+   an answer fed before a later pass matters are in `Props/C02` and `Props/C11`) -/
+example : (runX Ex.world [⟨{ now := 0, acc := 1, con := 0, soe := 0, envs := [] }, []⟩,
+    ⟨{ now := 1, acc := 0, con := 0, soe := 0, envs := [{ fd := 1000, rev := 1, rk := 0, data := bstr "telemetry\n", cap := 4096 }] }, []⟩]).clients.map (·.toBuf) =
     [render [.line 1 (bstr "2.4.4"), .prompt, .line 104 (bstr "Telemetry ON"), .prompt]] := by
   decide +kernel
 
